@@ -53,7 +53,24 @@ static int ser(const Agg& x, uint8_t* buf, int cap) {
   { ArrOut ao(buf, (int)n); CodedOutputStream os(&ao); bool ok = Serialization::serialize_to_coded_stream_with_cached_size(x, os); vf_check(ok, 1); os.Trim(); vf_check(!os.HadError(), 1); vf_check(ao.ByteCount() == (int64_t)n, 2); }
   return (int)n;
 }
-#ifdef VF_ROUNDTRIP
+#ifdef VF_UNKNOWN
+// unknown fields (any wire type, arbitrary payload) placed before the known field are skipped; absent fields keep defaults
+uint8_t inbuf[64];
+extern "C" void vf_thread_0() {
+  Agg x; x.a = vf_nondet64(); x.b = (int32_t)vf_nondet64(); x.c = vf_nondet64() & 1; x.in.u = (uint32_t)vf_nondet64(); x.in.s = (int64_t)vf_nondet64();
+  int n = ser(x, out, 40); vf_assume(n >= 0);
+  uint64_t wt = vf_nondet64(); vf_assume(wt == 0 || wt == 1 || wt == 2 || wt == 5);
+  int k = 0; inbuf[k++] = (uint8_t)((7 << 3) | wt);
+  if (wt == 0) { inbuf[k++] = (uint8_t)(vf_nondet64() & 0x7f); }
+  else if (wt == 1) { for (int i = 0; i < 8; ++i) inbuf[k++] = (uint8_t)vf_nondet64(); }
+  else if (wt == 5) { for (int i = 0; i < 4; ++i) inbuf[k++] = (uint8_t)vf_nondet64(); }
+  else { inbuf[k++] = 2; inbuf[k++] = (uint8_t)vf_nondet64(); inbuf[k++] = (uint8_t)vf_nondet64(); }
+  for (int i = 0; i < n && i < 40; ++i) inbuf[k + i] = out[i];
+  Agg y; y.a = 0; y.b = 0; y.c = false; y.in.u = 0; y.in.s = 0;
+  { CodedInputStream is(inbuf, k + n); bool ok = Serialization::parse_from_coded_stream(is, y); vf_check(ok, 7); }
+  vf_check(same(x, y), 7);
+}
+#elif defined(VF_ROUNDTRIP)
 extern "C" void vf_thread_0() {
   Agg x; x.a = vf_nondet64(); x.b = (int32_t)vf_nondet64(); x.c = vf_nondet64() & 1; x.in.u = (uint32_t)vf_nondet64(); x.in.s = (int64_t)vf_nondet64();
   int n = ser(x, out, 96); vf_check(n >= 0, 2);                              // predicted size == bytes produced (checked in ser)
